@@ -52,6 +52,17 @@ def hp_chunk(alphabet, length, first):
                       want=mpt.hp(ns, term))
             if dec != arg:
                 a.bad("hp_roundtrip", "decode_nibbles(encode_nibbles(x)) != x (sequence or flag lost)", nibbles=ns, terminator=term, got=dec)
+            try:
+                from trie.utils.nibbles import add_nibbles_terminator, is_nibbles_terminated, remove_nibbles_terminator
+                tns = tuple(ns) + (16,)
+                if (tuple(add_nibbles_terminator(tuple(ns))) != tns or tuple(add_nibbles_terminator(tns)) != tns
+                        or tuple(remove_nibbles_terminator(tns)) != tuple(ns) or tuple(remove_nibbles_terminator(tuple(ns))) != tuple(ns)
+                        or not is_nibbles_terminated(tns) or is_nibbles_terminated(tuple(ns))):
+                    a.bad("terminator_helpers_wrong", "add / remove / is_nibbles_terminated are not consistent (adding twice must add once)", nibbles=ns)
+                if term and compute_leaf_key(tns) != enc:
+                    a.bad("compute_key_wrong", "compute_leaf_key of an already terminated path differs from HP", nibbles=ns, terminator=True)
+            except Exception as e:  # noqa
+                a.bad("hp_raised", f"terminator helpers / compute_leaf_key on a terminated path raised {type(e).__name__}", nibbles=ns, terminator=term)
             # the same sequence handed over as a list (any sequence type is a nibble sequence)
             try:
                 if encode_nibbles(list(arg)) != enc:
